@@ -19,7 +19,10 @@ RULE = (
     "<= 6 pieces. Oracle: inner_text == s; Element.from_tag(serialize()) has the same class, the same inner_text and "
     "C14N-equal XML; an independent ODF 1.2 6.1.2 white-space interpreter over the lxml tree of the serialisation yields s; "
     "text:c is an integer >= 1. Non-trivial = s has a blank run of length >= 2, or a blank at an edge or next to TAB/LF, or a "
-    "split point inside/adjacent to a blank run; distinct by (class, pieces)."
+    "split point inside/adjacent to a blank run; distinct by (class, pieces). In a third of the random cases the element is first "
+    "attached to a parent with text after it (a Span inside a paragraph between two texts, a Paragraph/Header inside a section "
+    "with an indentation tail) and the remaining pieces are appended afterwards: same oracle, plus the host paragraph's own text "
+    "and normal form, and an untouched tail."
 )
 ASSUMPTIONS = [
     "lib/odfread.ws_text implements ODF 1.2 part 1 section 6.1.2 (text:s/tab/line-break opaque, HT/CR/LF -> SPACE, strip, collapse)",
@@ -31,8 +34,8 @@ CLASSES = ["Paragraph", "Header", "Span"]
 RE_NT = re.compile(r"  |^ | $|[ \t\n][\t\n]|[\t\n] ")
 
 
-def build(cls, pieces, how):
-    from odfdo import Header, Paragraph, Span
+def build(cls, pieces, how, host=None):
+    from odfdo import Element, Header, Paragraph, Span
 
     first = pieces[0] if pieces else ""
     if cls == "Paragraph":
@@ -41,6 +44,17 @@ def build(cls, pieces, how):
         e = Header(1, first)
     else:
         e = Span(first)
+    if host is not None:
+        # the element already sits in a parent, with text after it (its tail), while the other pieces are appended
+        before, after = host
+        if cls == "Span":
+            h = Paragraph(before)
+            h.append(e)
+            h.append(after)
+        else:
+            h = Element.from_tag("text:section")
+            h.append(e)
+            e.tail = "\n  " if after else None
     for i, p in enumerate(pieces[1:]):
         if how == "append" or (how == "mixed" and i % 2 == 0):
             e.append(p)
@@ -61,17 +75,31 @@ def nontrivial(pieces):
     return False
 
 
-def check(ctx, cls, pieces, how):
+def check(ctx, cls, pieces, how, host=None):
     from odfdo import Element
 
     s = "".join(pieces)
     case = {"cls": cls, "pieces": list(pieces), "how": how}
+    if host is not None:
+        case["host"] = list(host)
+        ctx.count("attached-to-a-parent")
     ctx.ev()
     if nontrivial(pieces):
-        ctx.nontrivial((cls, tuple(pieces), how))
+        ctx.nontrivial((cls, tuple(pieces), how, tuple(host) if host else None))
     with ctx.guard(("C05", cls, "exception"), case):
-        e = build(cls, pieces, how)
+        e = build(cls, pieces, how, host)
         got = e.inner_text
+        if host is not None and cls == "Span":
+            par = e.parent
+            whole = host[0] + s + host[1]
+            ctx.check(par.inner_text == whole, ("C05", cls, "host-text"),
+                      f"paragraph {host[0]!r} + Span built from {list(pieces)!r} + {host[1]!r} reports {par.inner_text!r}", case)
+            seen_host = odfread.ws_text(odfread.parse_fragment(par.serialize()))
+            ctx.check(seen_host == whole, ("C05", cls, "host-not-normal-form"),
+                      f"{par.serialize()!r} is read by an ODF consumer as {seen_host!r}, the text was {whole!r}", case)
+        if host is not None and cls != "Span":
+            ctx.check((e.tail or "") == ("\n  " if host[1] else ""), ("C05", cls, "tail-changed"),
+                      f"appending to the element changed its tail to {e.tail!r}", case)
         ctx.check(got == s, ("C05", cls, "inner_text"), f"{cls} built from {list(pieces)!r} reports {got!r}, expected {s!r}", case)
         xml = e.serialize()
         back = Element.from_tag(xml)
@@ -91,7 +119,7 @@ def check(ctx, cls, pieces, how):
 
 def replay(case, ctx):
     try:
-        check(ctx, case["cls"], case["pieces"], case["how"])
+        check(ctx, case["cls"], case["pieces"], case["how"], case.get("host"))
     except Abandon:
         pass
 
@@ -144,12 +172,14 @@ def run_shard(ctx):
 
     pieces = st.lists(st.lists(st.sampled_from(RICH), max_size=12).map("".join), min_size=1, max_size=6)
 
+    hosts = st.one_of(st.none(), st.none(), st.tuples(st.sampled_from(["", "x", "x ", " "]), st.sampled_from(["", "d", "d  e", " d", "  ", "\t"])))
+
     def mk():
-        @given(st.sampled_from(CLASSES), pieces, st.sampled_from(["append", "plain", "mixed"]))
-        def t(cls, ps, how):
+        @given(st.sampled_from(CLASSES), pieces, st.sampled_from(["append", "plain", "mixed"]), hosts)
+        def t(cls, ps, how, host):
             try:
-                check(ctx, cls, ps, how)
-                ctx.maybe_sample({"cls": cls, "pieces": ps, "how": how}, 4001)
+                check(ctx, cls, ps, how, host)
+                ctx.maybe_sample({"cls": cls, "pieces": ps, "how": how, "host": host}, 4001)
             except Abandon:
                 pass
         return t
